@@ -145,20 +145,57 @@ class JsonTables:
     # -- readers ----------------------------------------------------------------------------
     def _readers(self):
         r = self.ctx.repo
+        from .astnorm import normalise_function
         for f in r.all_funcs():
             if f.name not in ("read_json_data", "read_simple_json"):
                 continue
-            for n in ast.walk(f.node):
-                if isinstance(n, ast.Call) and isinstance(n.func, ast.Name) and n.func.id in self.ctor and n.keywords:
-                    cn = n.func.id
-                    if len(n.keywords) < 3:
-                        continue  # e.g. BaseProduct(component_list=[]) : an empty shell, not a decoded object
+            meths = {m: fi.node for m, fi in r.classes[f.cls].methods.items()} if f.cls in r.classes else None
+            fnode = normalise_function(f.node, methods=meths)   # one-line helpers (e.g. a builder of extra keyword arguments) are expanded
+            # classes listed in a literal table of the function: a call through a variable may construct any of them
+            table_classes = sorted({x.id for t in ast.walk(fnode) if isinstance(t, (ast.Tuple, ast.List)) for x in t.elts if isinstance(x, ast.Name) and x.id in self.ctor})
+            assigns = {}
+            for a in ast.walk(fnode):
+                if isinstance(a, ast.Assign) and len(a.targets) == 1 and isinstance(a.targets[0], ast.Name):
+                    assigns.setdefault(a.targets[0].id, []).append(a.value)
+
+            def dict_items(v, cn):
+                """keyword/value pairs of a `**expr` argument for class cn"""
+                if isinstance(v, ast.Name) and len(assigns.get(v.id, [])) == 1:
+                    return dict_items(assigns[v.id][0], cn)
+                if isinstance(v, ast.IfExp):
+                    named = {x.id for x in ast.walk(v.test) if isinstance(x, ast.Name) and x.id in self.ctor}
+                    if named:
+                        neg = isinstance(v.test, ast.Compare) and isinstance(v.test.ops[0], (ast.IsNot, ast.NotEq))
+                        return dict_items(v.body if ((cn in named) != neg) else v.orelse, cn)
+                    out = dict(dict_items(v.orelse, cn))
+                    out.update(dict_items(v.body, cn))
+                    return out
+                if isinstance(v, ast.Dict):
+                    return {k.value: val for k, val in zip(v.keys, v.values) if isinstance(k, ast.Constant) and isinstance(k.value, str)}
+                if isinstance(v, ast.Call) and isinstance(v.func, ast.Name) and v.func.id == "dict":
+                    return {kw.arg: kw.value for kw in v.keywords if kw.arg}
+                return {}
+            for n in ast.walk(fnode):
+                if not (isinstance(n, ast.Call) and isinstance(n.func, ast.Name) and n.keywords):
+                    continue
+                if n.func.id in self.ctor:
+                    classes = [n.func.id]
+                elif n.func.id in assigns and table_classes and len([k for k in n.keywords if k.arg]) >= 3:
+                    classes = table_classes
+                else:
+                    continue
+                if len(n.keywords) < 3:
+                    continue  # e.g. BaseProduct(component_list=[]) : an empty shell, not a decoded object
+                for cn in classes:
                     params = {}
                     keys = set()
+                    kws = [(kw.arg, kw.value) for kw in n.keywords if kw.arg]
                     for kw in n.keywords:
-                        if kw.arg:
-                            params[kw.arg] = decoder_shape(kw.value) + (kw.value,)
-                        for x in ast.walk(kw.value):
+                        if kw.arg is None:
+                            kws.extend(dict_items(kw.value, cn).items())
+                    for name, val in kws:
+                        params[name] = decoder_shape(val) + (val,)
+                        for x in ast.walk(val):
                             if isinstance(x, ast.Subscript) and isinstance(x.slice, ast.Constant) and isinstance(x.slice.value, str):
                                 keys.add(x.slice.value)
                     self.read[cn] = params
